@@ -168,7 +168,7 @@ def check(model: Model, run: Run) -> None:
         'C05.R1',
         "FSM.transition is a subset of the RFC 4271 8.2.2 relation, and along every CFG path of the Peer methods each "
         'fsm.change(X) happens in a state from which the table allows X (helper calls summarised, correlated guards)',
-        floor=10,
+        floor=7,
     )
     for to, frm in sorted(table.items()):
         extra = frm - RFC_TRANSITIONS.get(to, set())
@@ -216,8 +216,8 @@ def check(model: Model, run: Run) -> None:
             for n in walk_no_nested(fi.node):
                 if isinstance(n, ast.Call) and change_target(model, fi, n):
                     run.ok('%s: change(%s)' % (short(fi.qualname), change_target(model, fi, n)), 'allowed from every state that reaches it')
-    if n_change_sites < 9:
-        run.cannot('only %d fsm.change sites found (floor 9)' % n_change_sites)
+    if n_change_sites < 6:
+        run.cannot('only %d fsm.change sites found (floor 6)' % n_change_sites)
     # who else changes the FSM?
     for fi in model.funcs.values():
         if fi.qualname.startswith(PEER + '.') or fi.qualname.startswith(FSM + '.'):
